@@ -496,7 +496,15 @@ def files_task(ctx, task):
             os.makedirs(os.path.join(root2, sub_), exist_ok=True)
             with open(os.path.join(root2, sub_, 'm.xtuml'), 'w') as f:
                 f.write(text)
-        for route in ['dir', 'dirsame', 'zip', 'files'] + ['zipdup:' + d for d in dups]:
+        # (round 11, C03-22) a third tree whose names are unusual: the root's name holds pattern characters, one file and
+        # one directory begin with a dot, one directory is named like a pattern
+        root3 = root + ' [v2]'
+        shutil.rmtree(root3, ignore_errors=True)
+        for sub_, fname, text in zip(('', '.hid', os.path.join('x*y', '[a-c]')), ('.a.xtuml', 'b.xtuml', 'c?.xtuml'), contents):
+            os.makedirs(os.path.join(root3, sub_), exist_ok=True)
+            with open(os.path.join(root3, sub_, fname), 'w') as f:
+                f.write(text)
+        for route in ['dir', 'dirsame', 'dirodd', 'zip', 'files'] + ['zipdup:' + d for d in dups]:
             ctx.count('loads')
             sigroute = route.split(':')[0]
             try:
@@ -505,6 +513,8 @@ def files_task(ctx, task):
                     l.filename_input(root)
                 elif route == 'dirsame':
                     l.filename_input(root2)
+                elif route == 'dirodd':
+                    l.filename_input(root3)
                 elif route == 'files':
                     for p in paths:
                         l.filename_input(p)
@@ -529,6 +539,7 @@ def files_task(ctx, task):
                 continue
             if got != base:
                 where = 'm.xtuml, sub/m.xtuml, other/deep/m.xtuml' if sigroute == 'dirsame' else \
+                    "'<root> [v2]'/.a.xtuml, .hid/b.xtuml, 'x*y/[a-c]/c?.xtuml'" if sigroute == 'dirodd' else \
                     'a.xtuml, sub/b.xtuml, other/deep/c.xtuml' if sigroute != 'zipdup' else \
                     'the archive members %s' % (ZIPDUP_SCHEMES[route.split(':')[1]],)
                 ctx.violation('c03:files:%s' % sigroute, dict(case0, assign=list(assign), route=route),
@@ -539,6 +550,7 @@ def files_task(ctx, task):
             ctx.distinct('nontrivial', ('files', si, repr(rows), assign, route))
     shutil.rmtree(root, ignore_errors=True)
     shutil.rmtree(root + '-same', ignore_errors=True)
+    shutil.rmtree(root + ' [v2]', ignore_errors=True)
 
 
 # member names of archives holding equally named members, in member order
